@@ -323,9 +323,63 @@ pub fn run(ctx: &Ctx) -> (Spec, Report) {
             }
         }
     }
+    // the same file reached twice from the command line (a directory named twice, a directory and one of its
+    // sub-directories): still one foreign type per annotated item
+    {
+        let scratch = ctx.scratch("overlap");
+        let cli = ctx.cli.clone();
+        let n_ov = ctx.tier.pick(24, 120);
+        let r = crate::report::par_shards(ctx.threads, n_ov, |i| {
+            let mut rep = Report::new();
+            let mut rng = Rng::derive(ctx.seed, "C03-overlap", i as u64);
+            let lang = ALL_LANGS[i % 6];
+            let mut p = Profile::broad();
+            p.consts = false;
+            p.type_renames = false;
+            p.items = (2, 5);
+            p.mods = 0;
+            let prog = gen_program(&mut rng, &p, Some(lang));
+            if prog.items.iter().any(|it| !it.generics.is_empty() && matches!(it.kind, Kind::Enum { .. } | Kind::Alias(_) | Kind::Newtype(_))) && matches!(lang, LangId::Go | LangId::Python) {
+                return rep;
+            }
+            let src = prog.render(&mut rng, &RenderOpts { vary: true, prelude: false, strip_typeshare: false });
+            let root = scratch.join(format!("o{i}"));
+            crate::sut::write_tree(&root, &[SrcFile { path: "src_root/my_crate/src/inner/lib.rs".into(), source: src.clone() }, SrcFile { path: "src_root/my_crate/src/other.rs".into(), source: "#[typeshare]\npub struct QotherFixed { pub z: u8 }\n".into() }]);
+            let cfg = LangCfg::basic(lang);
+            let mut outputs: Vec<(String, Option<Vec<u8>>)> = vec![];
+            for (label, dirs) in [("once", vec!["src_root"]), ("directory-twice", vec!["src_root", "src_root"]), ("directory-and-subdirectory", vec!["src_root", "src_root/my_crate/src/inner"]), ("subdirectory-first", vec!["src_root/my_crate", "src_root"])] {
+                let out = root.join(format!("out-{label}.{}", lang.ext()));
+                let args = crate::sut::cli_args(lang, &cfg, false, &out, &dirs);
+                let o = crate::sut::run_bin(crate::sut::BinRun { cli: &cli, args, env: vec![], cwd: &root, strace: None, wall_limit: std::time::Duration::from_secs(30) });
+                rep.count("cli_runs", 1);
+                outputs.push((label.to_string(), if o.ok() { std::fs::read(&out).ok() } else { None }));
+            }
+            rep.eval(1);
+            rep.count("overlapping_directory_cases", 1);
+            rep.cell(format!("overlap|{}", lang.name()));
+            if let Some(reference) = outputs[0].1.clone() {
+                for (label, b) in outputs.iter().skip(1) {
+                    match b {
+                        Some(b) if *b == reference => {}
+                        Some(b) => {
+                            let (nr, nb) = (String::from_utf8_lossy(&reference).matches("QotherFixed").count(), String::from_utf8_lossy(b).matches("QotherFixed").count());
+                            rep.violate(format!("C03|cli|input-reached-twice|{}", if nb > nr { "definitions-duplicated" } else { "output-differs" }), format!("{}: naming the input as `{label}` changes the output (QotherFixed occurs {nb} times instead of {nr})", lang.name()), json!({"language": lang.name(), "form": label, "source": src, "output_once": String::from_utf8_lossy(&reference), "output": String::from_utf8_lossy(b)}));
+                        }
+                        None => rep.inconclusive("cli-run-failed-with-overlapping-directories", json!({"form": label, "language": lang.name()})),
+                    }
+                }
+            } else {
+                rep.inconclusive("cli-run-failed", json!({"language": lang.name()}));
+            }
+            let _ = std::fs::remove_dir_all(&root);
+            rep
+        });
+        rep.merge(r);
+        let _ = std::fs::remove_dir_all(&scratch);
+    }
     let spec = Spec {
         level: "exploration",
-        rule: format!("{n} generated files mixing annotated and un-annotated items at module depth 0-4, a quarter of them with two structs of one Rust identifier in two modules (different serde names), #[typeshare] / #[typeshare::typeshare] / with arguments, serde(skip) / typeshare(skip) on random subsets of fields, variants and struct-variant fields, any attribute order, five source layouts (rustfmt-like, attribute behind another attribute or a block comment on the same line, all attributes and the item on one line, CRLF + tabs), x up to 6 languages; definitions and members are attributed to source elements by unique stems and compared with the generator's item list (count, kind, order); decoy and skipped stems are searched over the whole output; plus 'cannot be generated' cells (const / union / DateTime per backend): error or definition, never success without definition; distinct = (language, item kind, module depth, annotation spelling) and (language, struct-variant, has-skipped)"),
+        rule: format!("{n} generated files mixing annotated and un-annotated items at module depth 0-4, a quarter of them with two structs of one Rust identifier in two modules (different serde names), #[typeshare] / #[typeshare::typeshare] / with arguments, serde(skip) / typeshare(skip) on random subsets of fields, variants and struct-variant fields, any attribute order, five source layouts (rustfmt-like, attribute behind another attribute or a block comment on the same line, all attributes and the item on one line, CRLF + tabs), x up to 6 languages; definitions and members are attributed to source elements by unique stems and compared with the generator's item list (count, kind, order); decoy and skipped stems are searched over the whole output; plus the real binary with the input named twice (same directory twice, a directory and one of its sub-directories, in both orders): byte-identical to naming it once; plus 'cannot be generated' cells (const / union / DateTime per backend): error or definition, never success without definition; distinct = (language, item kind, module depth, annotation spelling) and (language, struct-variant, has-skipped)"),
         assumptions: vec!["stems (q + 5 letters, no other 'q' in generated words) identify source elements after case conversion".into()],
         exhaustive: None,
     };
